@@ -229,7 +229,53 @@ def gen_sequence(loader, check, replay_on=True):
             check.ob("Sequence.il_write#well-sorted(SEQN count == arguments)", pi, p.ctx.pc, err is None and v.sort == "effect", detail=err or "")
             if n > 1 and err is None:
                 check.ob("Sequence.il_write#is-SEQN", pi, p.ctx.pc, term[0] == "call" and term[1] == "SEQN" and term[2][0] == ("num", n))
-    check.bounded.append("Sequence.il_write is checked for 1..6 effects (a join over the list; the SEQN count is len(effects) by construction)")
+    # ---- il_write for ANY number of effects (join rule): SEQN(<len>, <each effect's variable once, in order, ', '-separated>) -----
+    class EffLoop(LoopContract):
+        name = "Sequence.il_write"
+
+        def element_kinds(self):
+            return ["Assignment", "NOP"]
+
+        def make_element(self, it, kind, seq):
+            return mk_effect(it, loader, kind, f"e_{kind}")
+    check.instances_declared += 1
+
+    def setup_any(it):
+        s = Obj(Seq, label="seq")
+        effs = AbsSeq("effects", EffLoop())
+        it.ctx.assume(effs.length >= 1)           # class invariant established by __init__ (an empty list becomes [Empty])
+        s.fields.update({"effects": effs, "name": "seq", "effect_ops": effs})
+        return {"s": s, "effs": effs}
+    ex = explore(loader, setup_any, lambda it, st: it.call(it.getattr_(st["s"], "il_write"), [], {}))
+    check.absorb(ex, "Sequence.il_write any length")
+    if ex.paths:
+        check.instances_generated += 1
+    shapes = set()
+    for i, p in enumerate(ex.paths):
+        pi = f"effects=any path={i}"
+        pc = p.ctx.pc
+        check.ob("Sequence.il_write#total", pi, pc, p.outcome == "return", detail="" if p.outcome == "return" else f"raises {p.value!r}")
+        if p.outcome != "return":
+            continue
+        t = emit.as_tpl(p.value)
+        n = p.state["effs"].length
+        if len(t.parts) == 1 and isinstance(t.parts[0], Atom) and t.parts[0].kind != "join":
+            shapes.add("single")
+            check.ob("Sequence.il_write#a-single-effect-is-referenced-directly (only when the list has exactly one element)", pi, pc, n == 1)
+            continue
+        shapes.add("seqn")
+        ok = len(t.parts) == 5 and t.parts[0] == "SEQN(" and isinstance(t.parts[1], SInt) and t.parts[2] == ", " and isinstance(t.parts[3], Atom) \
+            and t.parts[3].kind == "join" and t.parts[4] == ")"
+        check.ob("Sequence.il_write#shape: SEQN(<count>, <joined effect variables>)", pi, pc, bool(ok), detail=t.render(lambda a: f"@{a.tag}"))
+        if not ok:
+            continue
+        j = t.parts[3]
+        check.ob("Sequence.il_write#well-sorted(SEQN count == arguments)", pi, pc, z3.And(t.parts[1].t == n, j.meta["length"] == n))
+        per = j.meta["elements"]
+        good = j.meta["sep"] == ", " and j.meta["seq"].contract is p.state["effs"].contract and z3.eq(j.meta["seq"].length, p.state["effs"].length) and all(
+            isinstance(v, Tpl) and len(v.parts) == 1 and isinstance(v.parts[0], Atom) and v.parts[0].kind == "effvar" and v.parts[0].tag == f"e_{k}" for k, v in per.items())
+        check.ob("Sequence.il_write#every-effect-once-in-source-order", pi, pc, bool(good), detail=str({k: repr(v) for k, v in per.items()}))
+    check.ob("Sequence.il_write#both-shapes-explored", "any length", [], shapes == {"single", "seqn"}, detail=str(shapes))
 
 
 # ------------------------------------------------------------------------------------------ Branch / ForLoop / Assignment emission
